@@ -32,24 +32,6 @@ import ModVerif.Proofs.TieFnPseudoBase
 namespace ModVerif.Tie.FnPseudo
 open ModVerif ModVerif.TieFnPseudo
 
-/-! concrete inputs of the non-vacuity examples -/
-/-- "v1.2.4-0.20060102150405-abcdefabcdef" -/
-def exRelease : Bytes := [118, 49, 46, 50, 46, 52, 45, 48, 46, 50, 48, 48, 54, 48, 49, 48, 50, 49, 53, 48, 52, 48, 53, 45, 97, 98, 99,
-  100, 101, 102, 97, 98, 99, 100, 101, 102]
-/-- "v1.0.0-20060102150405-abcdefabcdef+incompatible" -/
-def exNoBaseBuild : Bytes := [118, 49, 46, 48, 46, 48, 45, 50, 48, 48, 54, 48, 49, 48, 50, 49, 53, 48, 52, 48, 53, 45, 97, 98, 99, 100,
-  101, 102, 97, 98, 99, 100, 101, 102, 43, 105, 110, 99, 111, 109, 112, 97, 116, 105, 98, 108, 101]
-/-- "v1.2.3-pre.0.20060102150405-abcdefabcdef" -/
-def exPre : Bytes := [118, 49, 46, 50, 46, 51, 45, 112, 114, 101, 46, 48, 46, 50, 48, 48, 54, 48, 49, 48, 50, 49, 53, 48, 52, 48, 53,
-  45, 97, 98, 99, 100, 101, 102, 97, 98, 99, 100, 101, 102]
-/-- "v1.0.0-0.20060102150405-abcdefabcdef" -/
-def exNegative : Bytes := [118, 49, 46, 48, 46, 48, 45, 48, 46, 50, 48, 48, 54, 48, 49, 48, 50, 49, 53, 48, 52, 48, 53, 45, 97, 98, 99,
-  100, 101, 102, 97, 98, 99, 100, 101, 102]
-/-- "20060102150405" -/
-def exStamp : Bytes := [50, 48, 48, 54, 48, 49, 48, 50, 49, 53, 48, 52, 48, 53]
-/-- "abcdefabcdef" -/
-def exRev : Bytes := [97, 98, 99, 100, 101, 102, 97, 98, 99, 100, 101, 102]
-
 /-- incDecimal: the byte-slice loop with `digits[i] = '0'`, the final `digits[i]++` (uint8, wrapping) or
     `digits[0] = '1'; append(digits, '0')`.  The index panic of `digits[0]` on the empty string is the model's `none`. -/
 theorem incDecimal_tie (decimal : Bytes) (fuel : Nat) (hf : decimal.length + 1 ≤ fuel) :
@@ -211,6 +193,7 @@ theorem PseudoVersionBase_tie (v : Bytes) (fuel : Nat) (hf : 2 * v.length ≤ fu
 
 -- the three arms and both error returns: "v1.2.4-0.…" ↦ "v1.2.3"; "v1.2.3-pre.0.…" ↦ "v1.2.3-pre";
 -- "v1.0.0-…+incompatible" ↦ lacks base version; "v1.0.0-0.…" ↦ negative patch number
+set_option maxRecDepth 8000 in
 example : Generated.Module.PseudoVersionBase Pseudo.matchPseudoVersionRE 72 exRelease = .ok ([118, 49, 46, 50, 46, 51], none) ∧
     Pseudo.pseudoVersionBase exRelease = .ok [118, 49, 46, 50, 46, 51] ∧
     Generated.Module.PseudoVersionBase Pseudo.matchPseudoVersionRE 80 exPre =
